@@ -152,7 +152,7 @@ UNIT_SETS = [dict(T0=500.0, R0=1.0e7, m0=2.0), dict(T0=150.0, R0=2.5e6, m0=11.0)
 
 def told_kind(v, j):
     """the j-th (cyclically) of the temperature component kinds the spec exports for this vector"""
-    kinds = [k for k in TOLD_KINDS if k in v.get('tkinds', ['array'])]
+    kinds = [k for k in TOLD_KINDS if k.split('/')[0] in v.get('tkinds', ['array'])]
     if not kinds:
         raise Machinery('vector without temperature component kinds: %r' % (v.get('tkinds'),))
     return kinds[j % len(kinds)]
@@ -173,7 +173,9 @@ def build_from_vector(v, units, pkind, X, tkind='array'):
                            unit=pkind.get('unit', 'Pa'), layout=FILE_LAYOUTS[pkind.get('layout', 0)], tag='vec')
     # the built-in temperature component of kind `tkind`, told the vector's temperatures (and, where the kind
     # takes pressure nodes, the layer pressures the vector's grid declares)
-    tp = told_temperature(tkind, [t * T0 for t in v['T']], [10.0 ** e for e in v['lay']], [10.0 ** e for e in v['lev']], tmpdir())
+    # (table_<cover>/<route>: the spec's table for that cover -- nodes at doubled exponents, temperatures in units of T0)
+    nodes = [(10.0 ** (nd['l'] / 2.0), nd['T'] * T0) for nd in v['tables'][tkind.split('/')[0]]] if tkind.startswith('table_') else None
+    tp = told_temperature(tkind, [t * T0 for t in v['T']], [10.0 ** e for e in v['lay']], [10.0 ** e for e in v['lev']], tmpdir(), nodes)
     if pkind == 'simple':
         # the real ChemistryFile on the spec's table (rows = layers, columns = gases); which column is
         # the active gas rotates with the vector
@@ -313,6 +315,9 @@ def judge_vector_safely(ctx, v, units, pkind, X, tkind):
 def run_vectors(ctx, vecs, X):
     if not vecs:
         raise Machinery('no vectors exported')
+    used = {told_kind(v, j) for j, v in enumerate(vecs)} | {told_kind(v, j // 2 + 3) for j, v in enumerate(vecs) if v['n'] >= 2}
+    if not set(TOLD_KINDS) <= used:
+        raise Machinery('temperature component kinds never built in binding A: %r' % sorted(set(TOLD_KINDS) - used))
     for j, v in enumerate(vecs):
         units = UNIT_SETS[j % len(UNIT_SETS)]
         judge_vector_safely(ctx, v, units, 'simple', X, told_kind(v, j))
@@ -423,6 +428,11 @@ FORCED = [(3, 'simple', dict(chem='file-square')), (2, 'array', dict(chem='file-
           (4, 'simple', dict(temp='file-pcol')), (6, 'history', dict(temp='file-pcol')), (3, 'evaluated', dict(temp='file')),
           (4, 'simple', dict(temp='rodgers-cov')), (9, 'evaluated', dict(temp='array-interp', chem='taurex', gas='power')),
           (2, 'evaluated', dict(temp='isothermal', chem='taurex', gas='twopoint'))]
+# a tabulated T(P) on its own pressure nodes: the grid reaches beyond the table on both sides / the table beyond the grid
+# (generated after the random cases, so that the sub-seeds of the earlier cases stay what they were)
+FORCED4 = [(6, 'simple', dict(temp='array-ppoints', cover='inside')), (9, 'evaluated', dict(temp='file-pcol', cover='inside')),
+          (5, 'history', dict(temp='array-ppoints', cover='inside')), (4, 'array', dict(temp='file-pcol', cover='around', klass='array')),
+          (40, 'simple', dict(temp='file-pcol', cover='inside')), (3, 'simple', dict(temp='array-ppoints', cover='around'))]
 
 
 def random_model(rng, n, pkind, X, force=None):
@@ -453,7 +463,7 @@ def random_model(rng, n, pkind, X, force=None):
         return c
     cfg = draw_grid()
     lmax, lmin = cfg['lmax'], cfg['lmin']
-    trec = temperature_recipe(tkind, rng, n, lmax, lmin, tmpdir())
+    trec = temperature_recipe(tkind, rng, n, lmax, lmin, tmpdir(), force.get('cover'))
     if pkind == 'history' and tkind == 'npoint':
         # the pressure range is going to change under the component: no intermediate nodes (they would have to stay
         # strictly inside every range the walk visits)
@@ -586,7 +596,7 @@ def pair(name, a, b):
     return dict(name=name, same=same_array(a, b), a=[dec(x) for x in sample(a)], b=[dec(x) for x in sample(b)])
 
 
-def component_routes(model, n, declared, handed, pairs, first):
+def component_routes(model, n, declared, handed, pairs, first, stash=None):
     """The components on their own, as any caller may use them: a second, identical, never-used temperature component
     and chemistry (built from the recipe, so nothing of the model is touched) are handed the HARNESS'S arrays, are
     initialised, and read twice.  The handed arrays are compared with private copies.  They hold what the model exposes
@@ -605,6 +615,8 @@ def component_routes(model, n, declared, handed, pairs, first):
         t1 = np.array(tp.profile, dtype=float, copy=True)
         mid_ = own.copy()
         t2 = np.array(tp.profile, dtype=float, copy=True)
+        if stash is not None:
+            stash['component'] = (keep, t1)
         handed.append(pair('temperature.initialize_profile:pressure', keep, mid_))
         handed.append(pair('temperature.profile:pressure', keep, own))
         pairs.append(pair('component:temperature.profile', t1, t2))
@@ -626,6 +638,43 @@ def component_routes(model, n, declared, handed, pairs, first):
         handed.append(dict(name='chemistry.initialize_chemistry:raised-%s' % type(e).__name__, same=False, a=[], b=[]))
 
 
+def enc_pos(p):
+    """position of a pressure on the table axis: round(log10(P / Pa) * 1e5) (resolution 1e-5 dex; slack 2 in the spec)"""
+    try:
+        p = float(p)
+        return int(round(math.log10(p) * 1.0e5)) if (p > 0.0 and math.isfinite(p)) else 0
+    except Exception:
+        return 0
+
+
+def enc_mk(t):
+    """temperature in mK as an integer; -1: absent / not finite / negative / absurd"""
+    try:
+        t = float(t)
+        return int(round(t * 1000.0)) if (math.isfinite(t) and 0.0 <= t < 1.0e6) else -1
+    except Exception:
+        return -1
+
+
+def table_records(declared, n, exposures):
+    """A tabulated T(P) on its own pressure nodes: the nodes as the user gave them (surface first) and, for every public
+    exposure of the profile, (position, temperature) of every layer.  -> (records, where the grid lies relative to the table)"""
+    trec = declared['temp']
+    if trec['kind'] not in ('array-ppoints', 'file-pcol'):
+        return [], ''
+    nodes = [dict(l=enc_pos(p), T=enc_mk(t)) for p, t in zip(trec['P'], trec['T'])]
+    recs, where = [], ''
+    for name, P, T in exposures:
+        ok = P is not None and T is not None and getattr(P, 'shape', None) == (n,) and getattr(T, 'shape', None) == (n,)
+        layers = [dict(l=enc_pos(P[k]), T=enc_mk(T[k])) for k in range(n)] if ok else [dict(l=0, T=-1)]
+        recs.append(dict(name=name, nodes=nodes, layers=layers, slack=2, tol=2))
+        if ok and not where:
+            below = sum(1 for x in layers if x['l'] > nodes[0]['l'] + 2)
+            above = sum(1 for x in layers if x['l'] < nodes[-1]['l'] - 2)
+            where = 'grid-beyond-table:%s' % ('both' if below and above else 'below' if below else 'above' if above else 'none')
+    return recs, where
+
+
 def reads_event(model, mid, n, declared, handed):
     """Every exposed array read once, then every array once more (nothing is set in between), then the components on
     their own.  One record per array."""
@@ -633,14 +682,20 @@ def reads_event(model, mid, n, declared, handed):
     second = read_exposed(model)
     pairs = [pair(nm, first[nm], second.get(nm)) for nm in first]
     pairs += [pair(nm, None, second[nm]) for nm in second if nm not in first]
-    component_routes(model, n, declared, handed, pairs, second)
+    stash = {}
+    component_routes(model, n, declared, handed, pairs, second, stash)
     # a component that was TOLD one temperature per layer (array, file) or one for all (isothermal) exposes it, exactly
     trec, told = declared['temp'], []
     if trec['kind'] in ('array', 'file', 'isothermal') and (trec['kind'] == 'isothermal' or len(trec['T']) == n):
         want = np.full(n, float(trec['T'])) if trec['kind'] == 'isothermal' else np.array(trec['T'], dtype=float)
         told.append(pair('temp_profile:as-told:' + trec['kind'], want, second.get('temp_profile')))
-    kinds = 'T=%s:chem=%s' % (declared['temp']['kind'], '+'.join(declared['chem']['gastypes']) or declared['chem']['kind'].split(':')[0])
-    return dict(ev='reads', id='%s:reads' % mid, n=n, kinds=kinds, pairs=pairs, handed=handed, told=told)
+    # a TABLE on its own pressure nodes: every layer of every exposure against the table's rule (node / nearest end / bracket)
+    tables, where = table_records(declared, n, [('temp_profile', second.get('pressure_profile'), second.get('temp_profile')),
+                                                ('generate_profiles:temp_profile', second.get('pressure_profile'), second.get('generate_profiles:temp_profile')),
+                                                ('component:temperature.profile',) + stash.get('component', (None, None))])
+    kinds = 'T=%s%s:chem=%s' % (declared['temp']['kind'], ('[%s]' % where) if where else '',
+                                '+'.join(declared['chem']['gastypes']) or declared['chem']['kind'].split(':')[0])
+    return dict(ev='reads', id='%s:reads' % mid, n=n, kinds=kinds, pairs=pairs, handed=handed, told=told, tables=tables, tcover=where)
 
 
 def route_events(model, mid, n, declared, lev, X, handed):
@@ -775,6 +830,7 @@ def run_traces(ctx, X):
         if rng.random() < 0.4:
             kinds.append('evaluated')
         cases += [(n, pkind, None) for pkind in kinds]
+    cases += FORCED4
     nraised = 0
     for n, pkind, force in cases:
         sub = rng.getrandbits(48)
@@ -810,6 +866,9 @@ def run_traces(ctx, X):
             if e['ev'] != 'step':
                 meta[e['id']] = (label, n, None, recipe)
         events += ev
+        for e in ev:
+            if e['ev'] == 'reads' and e.get('tcover'):
+                labels['table:' + e['tcover']] = labels.get('table:' + e['tcover'], 0) + 1
         short = 'simple:after-history' if pkind == 'history' else (':'.join(label.split(':after-evaluation:')[0:1] + ['after-evaluation', label.split(':after-evaluation:')[1].split(':')[0]]) if pkind == 'evaluated' else label)
         labels[short] = labels.get(short, 0) + 1
         for extra in ['chem:' + declared['chem']['kind'].split(':ngas')[0], 'route-unit:' + declared['unit'],
@@ -858,6 +917,8 @@ def run_traces(ctx, X):
                                 detail='TLC rejected %s (n=%d, gases %s, declared columns %s): %s' % (e['id'], n, e['names'], e['col'], sorted(why)),
                                 vector=dict(recipe, event=e if n <= 12 else dict(id=e['id'], n=n, kind=e['kind'])))
             elif e['ev'] == 'reads':
+                if 'input_table_not_decreasing' in why:
+                    raise Machinery('the harness declared a temperature table whose nodes do not decrease: %s' % e['id'])
                 wrong = sorted(badids[e['id']].get('wrong', [])) if e['id'] in badids else []
                 for c in READ_CLAUSES:
                     ctx.verdict(c, c not in why, cls='%s:trace:reads:%s%s' % (pkind, e['kinds'], (':' + '+'.join(wrong[:3])) if c in why else ''),
@@ -874,7 +935,8 @@ def run_traces(ctx, X):
              % (nmodels, len(events), sum(1 for e in events if e['ev'] == 'step'),
                 ', '.join('%s=%d' % kv for kv in sorted(labels.items()))))
     need = ['simple', 'simple:after-history', 'array:surface-first', 'array:top-first+reverse', 'file:surface-first', 'file:top-first+reverse',
-            'chem:file:square', 'chem:file', 'chem:taurex', 'route-unit:km', 'route-unit:cm', 'route-unit:Rjup']
+            'chem:file:square', 'chem:file', 'chem:taurex', 'route-unit:km', 'route-unit:cm', 'route-unit:Rjup',
+            'table:grid-beyond-table:both', 'table:grid-beyond-table:none']
     missing = [k for k in need if not any(lb.startswith(k) for lb in labels)]
     missing += ['after-evaluation:' + mk for mk in MODEL_KINDS if not any(lb.endswith('after-evaluation:' + mk) for lb in labels)]
     # every built-in temperature component as built AND after evaluation; every gas type
@@ -967,6 +1029,19 @@ def run_canaries(events, allbad):
             want.append('canary-told')
         elif not allbad:
             raise Machinery('no reads event with a told temperature available for the canaries')
+        # a layer deeper than a table's deepest node handed the temperature of the table's TOP end
+        tb = [(e, j, k) for e in rds for j, t in enumerate(e.get('tables', [])) for k, x in enumerate(t['layers'])
+              if x['l'] > t['nodes'][0]['l'] + 2 and abs(t['nodes'][0]['T'] - t['nodes'][-1]['T']) > 10 and x['T'] >= 0]
+        if tb:
+            e0, j, k = tb[len(tb) // 2]
+            d = dict(e0); d['tables'] = [dict(t, layers=[dict(x) for x in t['layers']]) for t in e0['tables']]
+            d['tables'][j]['layers'][k]['T'] = d['tables'][j]['nodes'][-1]['T']
+            d['id'] = 'canary-table-far-end'; can.append(d)
+            want.append('canary-table-far-end')
+            if e0['id'] not in allbad:
+                g = dict(e0); g['id'] = 'canary-table-good'; can.append(g)
+        elif not allbad:
+            raise Machinery('no reads event with a layer below a temperature table available for the canaries')
         if rds[0]['id'] not in allbad:
             g = dict(rds[0]); g['id'] = 'canary-reads-good'; can.append(g)
     elif not allbad:
@@ -1133,7 +1208,8 @@ def run(ctx):
                        'second-route and chem events of grids longer than 12 / 60 layers log a fixed sample of layers (the obligations are local)',
                        'reads events: whole-array identity of the two reads (shape and every entry, NaN = NaN) is decided by numpy and logged as a flag; TLC compares the flag and a fixed sample of six entries exactly',
                        'component settings are drawn so that temperatures stay within about 200..3000 K (Guillot2010: surface optical depth below 1e4); NPoint nodes lie strictly inside the pressure range, none besides surface and top when the range is changed afterwards; TwoPointGas needs two layers; mixing ratios sum to less than 1',
-                       'binding A: a temperature component that is TOLD the per-layer temperatures must expose them (1e-9): pressure nodes are the layer pressures the vector declares']
+                       'binding A: a temperature component that is TOLD the per-layer temperatures must expose them (1e-9): pressure nodes are the layer pressures the vector declares, or (table_<cover>) the nodes of the spec\'s table for that position of the grid relative to the table',
+                       'tabulated T(P) in binding B: positions are round(log10 P * 1e5), temperatures mK; a layer within 2e-5 dex of a node / an end is accepted on either side; between two nodes only the bracket is required (the statement fixes no interpolation rule); tables are given surface first (top first only together with reverse=True of TemperatureArray)']
     tier = ctx.tier
     t0 = time.time()
     # the design-level TLC runs are independent processes: run them side by side while taurex is imported
@@ -1150,7 +1226,9 @@ def run(ctx):
                                 # a component that writes into the arrays the model shares with it: the temperature
                                 # profile scaling the layer pressures whenever it is evaluated; a read that scales T
                                 ('sharedwrite-refuted', 'MC_Atmosphere_sharedwrite.cfg', 'LayerIsGeometricMean'),
-                                ('sharedread-refuted', 'MC_Atmosphere_sharedread.cfg', 'ReadsAreRepeatable')):
+                                ('sharedread-refuted', 'MC_Atmosphere_sharedread.cfg', 'ReadsAreRepeatable'),
+                                # a tabulated T(P) whose out-of-range layers take the FAR end of the table
+                                ('tableends-refuted', 'MC_Atmosphere_tableends.cfg', 'TabulatedTemperatureAligned')):
             jobs.append(ex.submit(ctx.expect_refuted, label, 'MC_Atmosphere', cfg, inv, workers=1))
         X = setup()
         if not units_consistent():
